@@ -111,3 +111,16 @@ def BU(n, mults=(0, 1, 2, 3, 5, 8, 13)):
     for ms in itertools.product(mults, repeat=n):
         if sum(ms) >= n:
             yield tuple((m, (c,)) for c, m in enumerate(ms, 1) if m)
+
+
+def BPS(n, bullets=(0, 1, 5, 8), npairs=1, pmults=(5, 8, 13)):
+    """bullet piles from a small set of sizes for each of n candidates + npairs two-preference types with large multipliers:
+    five-candidate histories with an early winner whose surplus partly exhausts (quota high relative to the live votes) and a later
+    winner elected by transfer while sure losers are present"""
+    pairs = list(itertools.permutations(range(1, n + 1), 2))
+    for bs in itertools.product(bullets, repeat=n):
+        base = [(m, (c,)) for c, m in enumerate(bs, 1) if m]
+        for combo in itertools.combinations(pairs, npairs):
+            for ms in itertools.product(pmults, repeat=npairs):
+                if sum(bs) + sum(ms) >= n:
+                    yield tuple(base + [(m, p) for m, p in zip(ms, combo)])
